@@ -112,6 +112,11 @@ impl UpdateGenerator for MarkdownUpdateGenerator {
         if let Some(line) = iterator.unterminated() {
             anyhow::bail!(MarkdownParserError::UnterminatedBlock { line });
         }
+        // every line was written with a line feed: the last line of a document
+        // that does not end in one must not gain it
+        if !original_document.ends_with('\n') && updated.ends_with('\n') {
+            updated.pop();
+        }
         Ok(updated)
     }
 }
